@@ -175,6 +175,29 @@ def replace (c : Cursor α) (x : α) : Stat × Option α × Cursor α :=
 def index (c : Cursor α) : Nat := wdec c.done.length
 end Cursor
 
+/-- one call of the iterator API -/
+inductive IterCmd (α : Type) where
+  | next | remove | add (x : α) | replace (x : α) | index
+
+/-- a program driving one ideal cursor; `add` can be refused by the environment (then nothing
+changes, the cursor included) -/
+def Cursor.step (c : Cursor α) (cmd : IterCmd α) (refusal : Option Stat := none) : Out α × Cursor α :=
+  match cmd with
+  | .next => let r := c.next; ({ st := some r.1, val := r.2.1 }, r.2.2)
+  | .remove => let r := c.remove; ({ st := some r.1, val := r.2.1 }, r.2.2)
+  | .add x => match refusal with
+    | some s => ({ st := some s }, c)
+    | none => ({ st := some .ok }, c.add x)
+  | .replace x => let r := c.replace x; ({ st := some r.1, val := r.2.1 }, r.2.2)
+  | .index => ({ num := some c.index }, c)
+
+def Cursor.run (c : Cursor α) : List (IterCmd α) → List (Option Stat) → List (Out α) × Cursor α
+  | [], _ => ([], c)
+  | cmd :: cmds, rs =>
+    let r := c.step cmd (rs.headD none)
+    let t := Cursor.run r.2 cmds rs.tail
+    (r.1 :: t.1, t.2)
+
 /-- lock-step cursor over two lists; both `done` parts always have the same length -/
 structure ZipCursor (α : Type) where
   done1 : List α
